@@ -399,6 +399,15 @@ class Explorer(object):
             it.generators = []
         self.interps = []
 
+    def known(self, cond):
+        """Value of a condition already decided on this path, else None (never forks)."""
+        for d in self.trace:
+            if d.cond == cond:
+                return d.value
+            if d.cond == ("not", cond) or cond == ("not", d.cond):
+                return not d.value
+        return None
+
     def decide(self, cond, where=""):
         """cond: term tuple (symbolic) or a string description.  Returns the branch taken."""
         # a condition already decided on this path keeps its value
@@ -1852,6 +1861,19 @@ class Interp(object):
                 if hit:
                     return r
             self.unsupported("subscript of %r" % (c,), node)
+        if isinstance(c, dict) and isinstance(k, SymInt):
+            # a symbolic key among concrete ones: the entry of the key it equals (same decisions as `in`)
+            for kk, vv in list(c.items()):
+                if kk is k or (isinstance(kk, SymInt) and kk.t == k.t):
+                    return vv
+            # only equalities this path has already decided (by a preceding `in` test) are used: a lookup
+            # never forks by itself (a try/except KeyError lookup treats a symbolic key as a new one)
+            for kk, vv in list(c.items()):
+                if isinstance(kk, Abs) or isinstance(kk, (str, tuple)) or kk is None:
+                    continue
+                if self.ex.known(("==", k.t, term_of(kk))) is True:
+                    return vv
+            raise AbsRaise("KeyError", (k,))
         if isinstance(k, Abs) and not (isinstance(c, dict) and _hashable_abs(k)):
             if self.domain is not None:
                 hit, r = self.domain.getitem(self, c, k)
